@@ -37,6 +37,49 @@ CB = {"cb_ok": (9001, 1, 2, 2), "cb_raise": (9002, 3, 4, 4), "__enter__": (9003,
 KIND_LETTER = {"def": "p", "cdef": "p", "cdefint": "p", "noexc": "w", "gen": "g", "nogil": "n", "cpdefpy": "c", "cskip": "k", "mod": "p"}
 
 
+def _iter_class(tag, stop):
+    return ["@cython.cclass", "class It%s:" % tag, "    n: cython.int",
+            "    def __init__(self, n):          #@%s_init" % tag, "        self.n = n                  #@%s_init_s" % tag,
+            "    def __iter__(self):             #@%s_iter" % tag, "        return self                 #@%s_iter_r" % tag,
+            "    def __next__(self):             #@%s_next" % tag, "        if self.n <= 0:             #@%s_if" % tag,
+            "            %-24s#@%s_stop" % (stop, tag), "        self.n -= 1                 #@%s_dec" % tag,
+            "        return self.n               #@%s_ret" % tag]
+
+
+# special-method exits: the callee returns NULL / -1 and the CALLER swallows or synthesises the exception
+HEADER = (["import cython", "from c45cb import cb_ok, cb_raise"]
+          + _iter_class("A", "raise StopIteration")          # bare, outside try: error exit WITHOUT an exception set
+          + _iter_class("V", "raise StopIteration(5)")       # with a value: a real exception
+          + _iter_class("E", 'raise ValueError("e")')        # a real error
+          + ["@cython.cclass", "class ItT:", "    n: cython.int",
+             "    def __init__(self, n):          #@T_init", "        self.n = n                  #@T_init_s",
+             "    def __iter__(self):             #@T_iter", "        return self                 #@T_iter_r",
+             "    def __next__(self):             #@T_next", "        try:                        #@T_try",
+             "            if self.n <= 0:         #@T_if", "                raise StopIteration #@T_stop",
+             "        finally:", "            self.n -= 1             #@T_dec", "        return self.n               #@T_ret",
+             "@cython.cclass", "class Seq:",
+             "    def __getitem__(self, i):       #@G_get", "        if i >= 2:                  #@G_if",
+             "            raise IndexError(i)     #@G_stop", "        return i                    #@G_ret",
+             "@cython.cclass", "class Attr:",
+             "    def __getattr__(self, name):    #@H_get", "        raise AttributeError(name)  #@H_stop",
+             "@cython.cclass", "class LenE:",
+             "    def __len__(self):              #@L_get", '        raise ValueError("l")       #@L_stop',
+             "@cython.cclass", "class BoolE:",
+             "    def __bool__(self):             #@B_get", '        raise ValueError("b")       #@B_stop',
+             "@cython.cclass", "class ContE:",
+             "    def __contains__(self, x):      #@C_get", '        raise ValueError("c")       #@C_stop', ""])
+HMARK = {l.split("#@")[1].strip(): i + 1 for i, l in enumerate(HEADER) if "#@" in l}
+HFUZZY = {HMARK[k] for k in ("A_if", "V_if", "E_if", "T_if", "T_dec", "G_if")}
+# (class, consumer) -> source of the one-line statement
+IT_CONSUMERS = {"list": "list(It%s(2))", "for": "for _v in It%s(2): x = 1", "nextd": "next(It%s(0), None)",
+                "unpack": "_a, _b = It%s(2)", "nextraw": "next(It%s(0))"}
+IT_COMBOS = [("It" + c, k) for c in "AVET" for k in IT_CONSUMERS] + [
+    ("Seq", "list"), ("Seq", "for"), ("Attr", "hasattr"), ("Attr", "getattrd"), ("LenE", "len"), ("BoolE", "bool"), ("ContE", "in")]
+OTHER_SRC = {("Seq", "list"): "list(Seq())", ("Seq", "for"): "for _v in Seq(): x = 1", ("Attr", "hasattr"): 'hasattr(Attr(), "zz")',
+             ("Attr", "getattrd"): 'getattr(Attr(), "zz", None)', ("LenE", "len"): "len(LenE())", ("BoolE", "bool"): "bool(BoolE())",
+             ("ContE", "in"): "1 in ContE()"}
+
+
 class Fn:
     def __init__(self, fid, kind):
         self.fid, self.kind, self.body = fid, kind, []
@@ -53,11 +96,61 @@ class Gen:
         self.rng, self.pure = rng, pure
         self.nfid = 0
         self.funcs = []
+        self.hfuncs = []
 
     def new_fn(self, kind):
         self.nfid += 1
         f = Fn(self.nfid, kind)
         self.funcs.append(f)
+        return f
+
+    def hfn(self, name, kind, first, last, body):
+        self.nfid += 1
+        f = Fn(self.nfid, kind)
+        f.name, f.first, f.last, f.body = name, HMARK[first], HMARK[last], body
+        self.hfuncs.append(f)
+        return f
+
+    def it_stmt(self, cls, cons):
+        """one-line statement that drives a special method of an extension type to its exit"""
+        S = lambda k: {"t": "S", "ln": HMARK[k]}
+        R = lambda k: {"t": "R", "ln": HMARK[k]}
+        F = lambda k, c: {"t": "F", "ln": HMARK[k], "c": c}
+        calls = []
+        if cls.startswith("It"):
+            t = cls[2]
+            swallow = cons != "nextraw" and t != "E"
+            nok = 0 if cons in ("nextd", "nextraw") else 2
+            calls.append(self.hfn("__init__", "def", t + "_init", t + "_init_s", [S(t + "_init_s")]))
+            if nok:
+                calls.append(self.hfn("__iter__", "def", t + "_iter", t + "_iter_r", [R(t + "_iter_r")]))
+            if t == "T":
+                ok = [{"t": "TF", "ln": HMARK["T_try"], "body": [], "fin": [S("T_dec")]}, R("T_ret")]
+                end = [{"t": "TF", "ln": HMARK["T_try"], "body": [F("T_stop", 0)], "fin": [S("T_dec")]}]
+            else:
+                ok = [S(t + "_dec"), R(t + "_ret")]
+                end = [{"A": {"t": "Z", "ln": HMARK["A_stop"]}, "V": F("V_stop", 0), "E": F("E_stop", 1)}[t]]
+            for _ in range(nok):
+                calls.append(self.hfn("__next__", "def", t + "_next", t + "_ret", ok))
+            calls.append(self.hfn("__next__", "noexc" if swallow else "def", t + "_next", t + "_ret", end))
+            src = IT_CONSUMERS[cons] % t
+        else:
+            src = OTHER_SRC[(cls, cons)]
+            if cls == "Seq":
+                for _ in range(2):
+                    calls.append(self.hfn("__getitem__", "def", "G_get", "G_ret", [R("G_ret")]))
+                calls.append(self.hfn("__getitem__", "noexc", "G_get", "G_ret", [F("G_stop", 0)]))
+            elif cls == "Attr":
+                calls.append(self.hfn("__getattr__", "noexc", "H_get", "H_stop", [F("H_stop", 0)]))
+            else:
+                k = {"LenE": "L", "BoolE": "B", "ContE": "C"}[cls]
+                nm = {"L": "__len__", "B": "__bool__", "C": "__contains__"}[k]
+                calls.append(self.hfn(nm, "def", k + "_get", k + "_stop", [F(k + "_stop", 1)]))
+        return {"t": "IT", "src": src, "calls": calls, "combo": "%s/%s" % (cls, cons)}
+
+    def fixed_entry(self, combo):
+        f = self.new_fn("def")
+        f.body = [self.it_stmt(*combo)]
         return f
 
     def callee_kind(self):
@@ -79,7 +172,7 @@ class Gen:
 
     def stmt(self, fn, depth, budget, in_loop, in_fin):
         rng = self.rng
-        opts = [("S", 3), ("F", 1.2), ("R", 1.2), ("X", 1.5)]
+        opts = [("S", 3), ("F", 1.2), ("R", 1.2), ("X", 1.5), ("IT", 1.3)]
         if budget[0] > 0 and depth < 3:
             opts.append(("K", 2.5))
         if fn.kind == "gen" and not in_fin:
@@ -93,6 +186,8 @@ class Gen:
             r -= w
             if r <= 0:
                 break
+        if t == "IT":
+            return self.it_stmt(*rng.choice(IT_COMBOS))
         if t == "F":
             return {"t": "F", "c": rng.choice([1, 1, 0])}
         if t == "K":
@@ -176,6 +271,9 @@ class Printer:
             st["ln"] = self.put(ind, "break")
         elif t == "C":
             st["ln"] = self.put(ind, "continue")
+        elif t == "IT":
+            st["ln"] = self.put(ind, st["src"])
+            self.fuzzy.add(st["ln"])
         elif t == "K":
             st["ln"] = self.put(ind, "%s()" % st["fn"].name)
         elif t == "X":
@@ -231,8 +329,10 @@ def term_stmt(st, mode):
         return [t, str(st["ln"])]
     if t == "F":
         return ["F", str(st["ln"]), str(st["c"])]
-    if t == "P":
-        return ["P", str(st["ln"])]
+    if t in ("P", "Z"):
+        return [t, str(st["ln"])]
+    if t == "IT":
+        return term_body([{"t": "K", "ln": st["ln"], "fn": f} for f in st["calls"]], mode)
     if t == "Y":
         return ["Y", str(st["ln"]), str(st["v"])]
     if t == "K":
@@ -298,13 +398,17 @@ CFLAGS_T = ["-DCYTHON_TRACE=1", "-DCYTHON_TRACE_NOGIL=1"]
 
 def make_random_module(rng, idx, pure, ncases):
     g = Gen(rng, pure)
-    entries = [g.entry() for _ in range(ncases)]
-    pr = Printer(["from c45cb import cb_ok, cb_raise", ""])
+    entries = [g.entry() for _ in range(ncases)] + [g.fixed_entry(c) for c in IT_COMBOS]
+    pr = Printer(HEADER)
+    pr.fuzzy |= HFUZZY
     for f in g.funcs:
         pr.fn(f)
-    names = {f.fid: f.name for f in g.funcs}
+    names = {f.fid: f.name for f in g.funcs + g.hfuncs}
     names.update({v[0]: k for k, v in CB.items()})
     ranges = {f.name: (f.first, f.last) for f in g.funcs}
+    for f in g.hfuncs:      # special methods of several classes share a name: the oracle gets the union of their ranges
+        lo, hi = ranges.get(f.name, (f.first, f.last))
+        ranges[f.name] = (min(lo, f.first), max(hi, f.last))
     return {"name": "c45r%d" % idx, "src": "\n".join(pr.lines) + "\n", "entries": entries, "names": names, "ranges": ranges,
             "fuzzy": pr.fuzzy, "pure": pure, "funcs": g.funcs}
 
@@ -323,6 +427,9 @@ def judge(ctx, tag, f, rec, model_out, names, ranges, fuzzy, hook, is_gen, expec
         _RECORDED.append((impl, allr))
     replay = {"case": tag, "hook": hook, "outcome": rec["out"], "recorded": rt.brief(impl, 60), "source": (src or "")[:3000]}
     ctx.count("hook=%s %s %s" % (hook, "gen" if is_gen else "fn", "balanced" if not bad else "unbalanced"))
+    for st in walk(getattr(f, "body", None) or []):
+        if st["t"] == "IT":
+            ctx.count("special-method exit %s hook=%s" % (st["combo"], hook))
     ctx.seen((tag, hook, tuple(impl)), nontrivial=len(impl) > 2)
     model_ok = None
     if model_out is not None:
